@@ -587,7 +587,70 @@ def r9_parsed_number_not_narrowed(prog, res, rule="R9.parsed_number_not_narrowed
     res.floor(rule, "integers read from the stream with >>", n, 5)
 
 
+def r10_refusal_flag_honoured(prog, res, sev):
+    """Registry::ObjCreate refuses to instantiate an abstract supertype, or an entity that can only be instantiated through external
+    mapping, by returning an object whose error descriptor carries a fixed severity (`se->Error().severity( SEVERITY_WARNING )`).
+    Every caller that inspects the created object's severity to decide whether to discard it must discard for exactly those values:
+    the threshold test holds for every severity ObjCreate uses as a flag.  `< SEVERITY_WARNING` instead of `<=` keeps the instance of
+    an abstract entity, reads it like any other and reports the file clean."""
+    from engines import call_args
+    inv = {v: k for k, v in sev.items()}
+    g = prog.one("Registry::ObjCreate")
+    if g is None:
+        res.broke("anchor vanished: Registry::ObjCreate")
+        return
+    flags = set()
+    for c in g.calls():
+        if (c.get("fn") or "").endswith("ErrorDescriptor::severity") and call_args(c):
+            a = strip(call_args(c)[0])
+            if a is not None and isinstance(a.get("val"), int):
+                flags.add(a["val"])
+    if not flags:
+        res.broke("R10: Registry::ObjCreate no longer flags a refusal with a constant severity")
+        return
+    res.info["r10_refusal_severities"] = sorted(inv.get(v, v) for v in flags)
+    n = 0
+    for f in prog.all_functions():
+        if f.component == "test":
+            continue
+        made = set()
+        for a in f.walk():
+            if a["k"] == "Assign" and strip(a["ch"][0]) is not None and strip(a["ch"][0])["k"] == "Ref":
+                if any(y["k"] == "Call" and (y.get("fn") or "").endswith("Registry::ObjCreate") for y in walk(a["ch"][1])):
+                    made.add(strip(a["ch"][0])["d"])
+            if a["k"] == "Var" and a.get("ch") and a["ch"][0] is not None and \
+                    any(y["k"] == "Call" and (y.get("fn") or "").endswith("Registry::ObjCreate") for y in walk(a["ch"][0])):
+                made.add(a["d"])
+        if not made:
+            continue
+        for x in f.walk():
+            if x["k"] != "Binary" or x.get("op") not in ("<", "<=", ">", ">=", "==", "!="):
+                continue
+            l, r = strip(x["ch"][0]), strip(x["ch"][1])
+            if r is None or not isinstance(r.get("val"), int) or l is None:
+                continue
+            if not (l["k"] == "Call" and (l.get("fn") or "").endswith("severity") and any(y["k"] == "Ref" and y.get("d") in made for y in walk(l))):
+                continue
+            # only tests that guard a discard (delete / assignment of the null entity)
+            par = f.parent.get(x["i"])
+            while par is not None and par["k"] not in ("If",):
+                par = f.parent.get(par["i"])
+            if par is None or not any(y["k"] == "Delete" or (y["k"] == "Assign" and "ENTITY_NULL" in expr_str(y["ch"][1])) for y in walk(par["ch"][1])):
+                continue
+            n += 1
+            K = r["val"]
+            op = x["op"]
+            hold = {v: {"<": v < K, "<=": v <= K, ">": v > K, ">=": v >= K, "==": v == K, "!=": v != K}[op] for v in flags}
+            bad = [v for v, h in hold.items() if not h]
+            res.add("R10.refusal_flag_honoured", "R10|%s|%s|%d" % (f.relfile(), f.name, n), f.where(x), not bad,
+                    "the discard test `%s` holds for every severity ObjCreate uses to refuse an entity (%s)" % (expr_str(x)[:60], sorted(inv.get(v, v) for v in flags)) if not bad else
+                    "the discard test `%s` is false for %s, the severity with which Registry::ObjCreate marks an abstract supertype / an entity that "
+                    "needs external mapping: the instance is kept, read and written back, and the file is reported clean" % (expr_str(x)[:60], inv.get(bad[0], bad[0])))
+    res.floor("R10.refusal_flag_honoured", "discard tests on objects created by Registry::ObjCreate", n, 1)
+
+
 def run(prog, res, sev):
+    r10_refusal_flag_honoured(prog, res, sev)
     r9_parsed_number_not_narrowed(prog, res)
     r8_returned_severity(prog, res, sev)
     r6_stream_errors(prog, res, sev)
